@@ -171,9 +171,11 @@ func (d *decoder) decode(v interface{}) error {
 						v := instanceValue.Interface()
 						var err error
 						if tlv8 == "-" {
-							// unnamed slices are inline encoded
+							// unnamed slices are inline encoded; the list ends
+							// when there is nothing left to read for an element
+							before := d.r.size()
 							err = d.decode(v)
-							if isEmptyStruct(v) {
+							if d.r.size() == before {
 								// step out of loop
 								break
 							}
